@@ -147,10 +147,35 @@ class ObjFlow:
         if v[0] == "adt" and isinstance(v[2], tuple) and v[1].rsplit("::", 1)[0].endswith(self.adt) and all(isinstance(x, tuple) and len(x) == 2 and isinstance(x[0], str) for x in v[2]):
             # a struct literal, possibly with `..Default::default()` for the fields it does not name
             st = {"*": self.vid(DEFAULT)}
+            base = None
             for fname, fv in v[2]:
                 if fv[0] == "field" and fv[1][0] == "call" and (fv[1][1].endswith("Default>::default") or fv[1][1].endswith("::default")) and not fv[1][2]:
                     continue
+                if fv[0] == "field" and fv[2] == self.prefix + fname and fv[1][0] == "call" and fv[1][1].endswith("Clone>::clone") and len(fv[1][2]) == 1 and fv[1][2][0][0] == "local":
+                    # `..template.clone()`: the fields not named continue the template built in place
+                    base = fv[1][2][0]
+                    continue
+                if fv[0] == "call" and fv[1].endswith("::clone") and len(fv[2]) == 1 and fv[2][0][0] == "field" and fv[2][0][2] == self.prefix + fname and fv[2][0][1][0] == "local":
+                    # the same, with the derived `clone` of the struct written out field by field
+                    base = fv[2][0][1]
+                    continue
                 st[fname] = self.vid(fv)
+            if base is not None and at is not None and self.depth < 3 and base != self.D:
+                try:
+                    src = ObjFlow(self.prog, self.fn, base, self.adt, UNINIT, self.depth + 1)
+                    sts = src.states_at(at)
+                except RecursionError:
+                    sts = None
+                if sts:
+                    out = []
+                    for s0 in sts:
+                        x = {f: self.vid(val) for f, val in s0.items()}
+                        for f, val in st.items():
+                            if f != "*":
+                                x[f] = val
+                        out.append(x)
+                    return out
+                return [{"*": self.vid(("opaque", "init:clone-of-unknown"))}]
             return [st]
         if v[0] == "call":
             p = v[1]
@@ -495,6 +520,18 @@ def object_states(prog, fn, obj_expr, at, adt="Message"):
     if e[0] == "local":
         fl = ObjFlow(prog, fn, e, adt, UNINIT)
         return fl.states_at(at), "in-place"
+    if e[0] == "adt" and isinstance(e[2], tuple) and e[1].rsplit("::", 1)[0].endswith(adt):
+        # the object is a struct literal used where it is built (`send(Message { to, ..template.clone() })`)
+        fl = ObjFlow(prog, fn, ("opaque", "literal"), adt, UNINIT)
+        sts = fl._from_value(e, at)
+        out = []
+        for st in sts or []:
+            d = {k: fl.vals[i] for k, i in st.items() if not k.startswith("$")}
+            if isinstance(d.get("*"), tuple) and d["*"][0] == "opaque" and str(d["*"][1]).startswith("init:"):
+                return None, "unknown"
+            if d not in out:
+                out.append(d)
+        return (out or None), "literal"
     if e[0] == "param":
         fl = ObjFlow(prog, fn, e, adt, UNCHANGED)
         return fl.states_at(at), "in-place(param)"
